@@ -520,6 +520,31 @@ impl Srv {
         Err(last.unwrap())
     }
 
+    /// Connect with a receive buffer of `bytes` (set before the connection is made, so that the
+    /// window the server sees is small from the start).
+    pub fn connect_small_rcvbuf(&self, bytes: i32) -> std::io::Result<TcpStream> {
+        use std::os::unix::io::FromRawFd;
+        unsafe {
+            let fd = libc::socket(libc::AF_INET, libc::SOCK_STREAM | libc::SOCK_CLOEXEC, 0);
+            if fd < 0 {
+                return Err(std::io::Error::last_os_error());
+            }
+            libc::setsockopt(fd, libc::SOL_SOCKET, libc::SO_RCVBUF, &bytes as *const _ as *const libc::c_void, 4);
+            let mut dst: libc::sockaddr_in = std::mem::zeroed();
+            dst.sin_family = libc::AF_INET as u16;
+            dst.sin_addr.s_addr = u32::from_ne_bytes([127, 0, 0, 1]);
+            dst.sin_port = self.port.to_be();
+            if libc::connect(fd, &dst as *const _ as *const libc::sockaddr, std::mem::size_of::<libc::sockaddr_in>() as u32) != 0 {
+                let e = std::io::Error::last_os_error();
+                libc::close(fd);
+                return Err(e);
+            }
+            let s = TcpStream::from_raw_fd(fd);
+            s.set_nodelay(true)?;
+            Ok(s)
+        }
+    }
+
     /// Connect from a local port that is registered first so that the server's accept of exactly
     /// this connection fails with ECONNABORTED.
     pub fn connect_to_be_aborted(&self) -> std::io::Result<TcpStream> {
